@@ -87,7 +87,8 @@ func (v *SliceSchema) validate(ctx *p.SchemaCtx) {
 
 	if isZeroVal || refVal.Len() == 0 {
 		if v.defaultVal != nil {
-			refVal.Set(reflect.ValueOf(v.defaultVal))
+			// copy the default so the validated value never shares memory with the schema
+			refVal.Set(cloneSliceValue(reflect.ValueOf(v.defaultVal)))
 		} else if v.required == nil {
 			return
 		} else {
@@ -126,6 +127,18 @@ func (v *SliceSchema) validate(ctx *p.SchemaCtx) {
 		}
 	}
 	// 4. postTransforms -> defered see above
+}
+
+// cloneSliceValue returns a copy of a slice value (nested slices are copied too)
+func cloneSliceValue(src reflect.Value) reflect.Value {
+	if src.Kind() != reflect.Slice || src.IsNil() {
+		return src
+	}
+	dst := reflect.MakeSlice(src.Type(), src.Len(), src.Len())
+	for i := 0; i < src.Len(); i++ {
+		dst.Index(i).Set(cloneSliceValue(src.Index(i)))
+	}
+	return dst
 }
 
 // Only supports parsing from data=slice[any] to a dest =&slice[] (this can be typed. Doesn't have to be any)
